@@ -202,6 +202,20 @@ func boolResult(ci ssa.CallInstruction) (vals []ssa.Value) {
 // the stored value (named results spilled because of defer / closures).
 func canon(v ssa.Value) ssa.Value {
 	for i := 0; i < 8; i++ {
+		if phi, ok := v.(*ssa.Phi); ok && len(phi.Edges) > 0 {
+			// a φ all of whose inputs are one value (left behind by threading/inlining) is that value
+			same := true
+			for _, e := range phi.Edges[1:] {
+				if e != phi.Edges[0] {
+					same = false
+				}
+			}
+			if same && phi.Edges[0] != ssa.Value(phi) {
+				v = phi.Edges[0]
+				continue
+			}
+			return v
+		}
 		u, ok := v.(*ssa.UnOp)
 		if !ok || u.Op != token.MUL {
 			return v
